@@ -144,7 +144,11 @@ func c07Oracle(r *SeqRun) []Viol {
 func c07Seq(tier string) []SeqJob {
 	var out []SeqJob
 	mk := func(name string, keys []int, ttls []int64, depth int, secs float64) {
-		hash := ""
+		hash, su := "", ""
+		if keys[0] == -2 {
+			su = "refuse-even" // Config.ShouldUpdate vetoes writes with an even value id
+			keys = keys[1:]
+		}
 		if keys[0] < 0 {
 			// negative marker: keys with NON-ZERO conflict hashes (custom KeyToHash), as string /
 			// []byte keys have: lookups then take the conflict-checking path
@@ -160,7 +164,7 @@ func c07Seq(tier string) []SeqJob {
 			alpha = append(alpha, Op{K: "getttl", Key: k}, Op{K: "del", Key: k})
 		}
 		alpha = append(alpha, Op{K: "iter"}, Op{K: "advance", N: 1000}, Op{K: "advance", N: 5000}, Op{K: "sweep"}, Op{K: "advance", N: 400})
-		spec := &SeqSpec{Cfg: Cfg{NumCounters: 16, MaxCost: 4, BufferItems: 2, SetBuf: 2, TTLTick: 2, BucketSecs: 1, KeyHash: hash}, MaxDepth: depth,
+		spec := &SeqSpec{Cfg: Cfg{NumCounters: 16, MaxCost: 4, BufferItems: 2, SetBuf: 2, TTLTick: 2, BucketSecs: 1, KeyHash: hash, ShouldUpdate: su}, MaxDepth: depth,
 			Alphabet: func(r *SeqRun) []Op { return alpha }, Oracle: c07Oracle}
 		out = append(out, SeqJob{Name: name, Spec: spec, Seconds: secs})
 	}
@@ -168,9 +172,11 @@ func c07Seq(tier string) []SeqJob {
 		mk("seq/1key/ttl{-1,1,1.5,3,7}s/depth5", []int{1}, []int64{-1000, 1000, 1500, 3000, 7000}, 5, 40)
 		mk("seq/2keys/ttl{1,3}s/depth4", []int{1, 257}, []int64{1000, 3000}, 4, 40)
 		mk("seq/nonzero-conflict/1key/ttl{1,1.5}s/depth5", []int{-1, 3}, []int64{1000, 1500}, 5, 40)
+		mk("seq/shouldupdate-vetoes/1key/ttl{1,3}s/depth5", []int{-2, 1}, []int64{1000, 3000}, 5, 40)
 	} else {
 		mk("seq/1key/ttl{-1,1,1.5,3,7}s/depth8", []int{1}, []int64{-1000, 1000, 1500, 3000, 7000}, 8, 560)
 		mk("seq/nonzero-conflict/2keys/ttl{1,1.5,3}s/depth7", []int{-1, 1, 3}, []int64{1000, 1500, 3000}, 7, 560)
+		mk("seq/shouldupdate-vetoes/1key/ttl{1,3,7}s/depth8", []int{-2, 1}, []int64{1000, 3000, 7000}, 8, 560)
 		mk("seq/2keys/ttl{-1,1,3,7}s/depth6", []int{1, 257}, []int64{-1000, 1000, 3000, 7000}, 6, 560)
 		mk("seq/2keys/ttl{1,3}s/depth7", []int{1, 257}, []int64{1000, 3000}, 7, 560)
 	}
